@@ -418,5 +418,25 @@ class Run(Oracles):
     def op_gate_all(self, op: dict, ctx: dict) -> None:
         self.w.release_all()
 
+    def op_new_pool(self, op: dict, ctx: dict) -> None:
+        """Another (unnamed) pool created mid-run: its name must differ from every pool alive in this loop (C11)."""
+        from .model import PoolM
+        w, L = self.w, self.L
+        if len(w.pools) >= 4:
+            return
+        spec = {"cls": "TaskPool", "size": op.get("size")}
+        pm = PoolM(len(w.pools), spec)
+        kw = {} if spec["size"] is None else {"pool_size": spec["size"]}
+        pm.pool = L.TaskPool(**kw)
+        pm.name = str(pm.pool)
+        if pm.name in w.name_re:
+            w.fail({"C11"}, "name/pools-share-a-name", f"{pm.name} (pool created mid-run)")
+            return
+        w.name_re[pm.name] = pm
+        w.pools.append(pm)
+        w.label("new-pool-mid-run")
+        if any(p.closed for p in w.pools):
+            w.label("new-pool-after-a-close")
+
     def op_noop(self, op: dict, ctx: dict) -> None:
         pass
